@@ -144,7 +144,7 @@ Proof.
 Qed.
 
 Lemma flag_ok_new d s m gen : flag_ok H d s m (new_flag gen).
-Proof. split; [intros h E; discriminate E|intros E; discriminate E]. Qed.
+Proof. split; [intros h E; discriminate E|split; [intros E; discriminate E|intros _ E; discriminate E]]. Qed.
 
 Lemma hash_big_nothash c x : is_hash x = false -> hash_big H c x.
 Proof. intros Hn h E. subst x. discriminate Hn. Qed.
@@ -184,7 +184,7 @@ Proof. unfold branch_res. cbv zeta. destruct (Nat.eqb (length p) 0); reflexivity
 (* ------------------------------------------------------------------ a decoded node is in the invariant *)
 
 Lemma dec_child_lzf d gen c : child_shape c -> all_fits H c -> cov1 H (stored H d) c ->
-  (canon c = true -> lzf H d true c (dec_node H gen None c)) ->
+  (canon c = true -> big H c = false -> lzf H d true c (dec_node H gen None c)) ->
   lzf H d true c (dec_child H gen c) /\ hash_big H c (dec_child H gen c).
 Proof.
   intros [->|[[v ->]|Hc]] Hfit [Hst Hcov] IH.
@@ -193,14 +193,15 @@ Proof.
   - rewrite (dec_child_canon H gen c Hc). destruct (big H c) eqn:Eb.
     + split; [|intros h _; exact Eb]. apply lzf_hash. split; [exact Hc|]. split; [exact Hfit|].
       split; [apply Hst; [exact Hc|reflexivity]|exact Hcov].
-    + split; [apply IH; exact Hc|]. intros h E. exfalso. exact (dec_node_neq_hash H gen None c h Hc E).
+    + split; [apply IH; [exact Hc|reflexivity]|]. intros h E. exfalso. exact (dec_node_neq_hash H gen None c h Hc E).
 Qed.
 
 Lemma dec_lzf_gen d gen : forall m sized hash, canon m = true -> all_fits H m -> covers H d m ->
   (forall h, hash = Some h -> h = H (spec_enc H m) /\ (sized = true -> big H m = true) /\ stored H d m) ->
+  (hash = None -> sized = true /\ big H m = false) ->
   lzf H d sized m (dec_node H gen hash m).
 Proof.
-  induction m as [|k c f IH|cs f IH|h|v] using node_ind'; intros sized hash Hc Hfit Hcov Hh; try discriminate Hc.
+  induction m as [|k c f IH|cs f IH|h|v] using node_ind'; intros sized hash Hc Hfit Hcov Hh Hn; try discriminate Hc.
   - rewrite dec_node_short.
     assert (Hs : child_shape c).
     { destruct (canon_short_inv _ _ _ Hc) as [_ [(v & -> & _)|(cs & f' & -> & _ & Hcc)]].
@@ -209,26 +210,33 @@ Proof.
     pose proof Hfit as Hfit0. pose proof Hcov as Hcov0.
     destruct Hfit as [_ Hfitc]. unfold covers in Hcov. change (cov1 H (stored H d) c) in Hcov.
     destruct (dec_child_lzf d gen c Hs Hfitc Hcov) as [L B].
-    { intros Hcc. apply IH; [exact Hcc|exact Hfitc|exact (proj2 Hcov)|]. intros h E; discriminate E. }
+    { intros Hcc Hsm. apply IH; [exact Hcc|exact Hfitc|exact (proj2 Hcov)| |].
+      - intros h E; discriminate E.
+      - intros _. split; [reflexivity|exact Hsm]. }
     apply lzf_short; [exact L|exact B|]. split.
     + intros h Eh. cbn [fhash] in Eh. destruct (Hh h Eh) as (A1 & A2 & _). split; assumption.
-    + intros _. split; [exact Hc|]. split; [exact Hfit0|]. split; [exact Hcov0|].
-      intros h Eh. cbn [fhash] in Eh. apply (Hh h Eh).
+    + split.
+      * intros _. split; [exact Hc|]. split; [exact Hfit0|]. split; [exact Hcov0|].
+        intros h Eh. cbn [fhash] in Eh. apply (Hh h Eh).
+      * intros En _. cbn [fhash] in En. exact (Hn En).
   - rewrite dec_node_full. pose proof (canon_full_children _ _ Hc) as Hs.
     pose proof Hfit as Hfit0. pose proof Hcov as Hcov0.
     apply (all_fits_full H cs f) in Hfit. destruct Hfit as [_ Hfit].
     unfold covers in Hcov. apply (covers_p_full H (stored H d) cs f) in Hcov.
     assert (HF : Forall (fun c => lzf H d true c (dec_child H gen c) /\ hash_big H c (dec_child H gen c)) cs).
     { rewrite Forall_forall in *. intros x Hin. apply dec_child_lzf; [apply Hs; exact Hin|apply Hfit; exact Hin|apply Hcov; exact Hin|].
-      intros Hcc. apply (IH x Hin); [exact Hcc|apply Hfit; exact Hin|exact (proj2 (Hcov x Hin))|].
-      intros h E; discriminate E. }
+      intros Hcc Hsm. apply (IH x Hin); [exact Hcc|apply Hfit; exact Hin|exact (proj2 (Hcov x Hin))| |].
+      - intros h E; discriminate E.
+      - intros _. split; [reflexivity|exact Hsm]. }
     apply lzf_full.
     + apply Forall2_map_r. eapply Forall_impl; [|exact HF]. cbv beta. tauto.
     + apply Forall2_map_r. eapply Forall_impl; [|exact HF]. cbv beta. tauto.
     + split.
       * intros h Eh. cbn [fhash] in Eh. destruct (Hh h Eh) as (A1 & A2 & _). split; assumption.
-      * intros _. split; [exact Hc|]. split; [exact Hfit0|]. split; [exact Hcov0|].
-        intros h Eh. cbn [fhash] in Eh. apply (Hh h Eh).
+      * split.
+        -- intros _. split; [exact Hc|]. split; [exact Hfit0|]. split; [exact Hcov0|].
+           intros h Eh. cbn [fhash] in Eh. apply (Hh h Eh).
+        -- intros En _. cbn [fhash] in En. exact (Hn En).
 Qed.
 
 (* the node resolveHash returns for a stored node *)
@@ -236,13 +244,18 @@ Lemma dec_lzf d gen sized m : avail H d m -> (sized = true -> big H m = true) ->
   lzf H d sized m (dec_node H gen (Some (H (spec_enc H m))) m).
 Proof.
   intros (Hc & Hfit & Hst & Hcov) Hb. apply dec_lzf_gen; try assumption.
-  intros h E. injection E as <-. split; [reflexivity|]. split; assumption.
+  - intros h E. injection E as <-. split; [reflexivity|]. split; assumption.
+  - intros E; discriminate E.
 Qed.
 
-(* an embedded child, decoded in place *)
-Lemma dec_lzf_embedded d gen c : canon c = true -> all_fits H c -> covers H d c ->
+(* an embedded (small) child, decoded in place *)
+Lemma dec_lzf_embedded d gen c : canon c = true -> all_fits H c -> covers H d c -> big H c = false ->
   lzf H d true c (dec_node H gen None c).
-Proof. intros Hc Hfit Hcov. apply dec_lzf_gen; try assumption. intros h E; discriminate E. Qed.
+Proof.
+  intros Hc Hfit Hcov Hsm. apply dec_lzf_gen; try assumption.
+  - intros h E; discriminate E.
+  - intros _. split; [reflexivity|exact Hsm].
+Qed.
 
 (* ------------------------------------------------------------------ the simulation, for a node in any position *)
 
